@@ -693,6 +693,63 @@ func Run(tier string) {
 			}
 		}
 	}
+	// PDI level: the swap follows the PDI's Source Interface wherever that IE stands relative to the SDF Filter IEs
+	// (child order is free in TS 29.244), with one and with two filters
+	for _, r := range []string{mk("out", "17", "10.1.2.3", "80", "10.129.66.195/24", "1-2"), mk("in", "6", "any", "", "192.168.0.0/16", "443")} {
+		ref, _ := RefParse(r)
+		r2 := mk("out", "ip", "172.16.1.0/24", "", "assigned", "")
+		ref2, _ := RefParse(r2)
+		for srcIf := uint8(0); srcIf < 4; srcIf++ {
+			for order := 0; order < 3; order++ {
+				for two := 0; two < 2; two++ {
+					c.evals++
+					si := ie.NewSourceInterface(srcIf)
+					sdfs := []*ie.IE{ie.NewSDFFilter(r, "", "", "", 0)}
+					refs := []*Filter{ref}
+					if two == 1 {
+						sdfs = append(sdfs, ie.NewSDFFilter(r2, "", "", "", 0))
+						refs = append(refs, ref2)
+					}
+					var ch []*ie.IE
+					switch order {
+					case 0: // Source Interface first (the order go-pfcp based SMFs emit)
+						ch = append([]*ie.IE{si}, sdfs...)
+					case 1: // SDF filters first
+						ch = append(append([]*ie.IE{}, sdfs...), si)
+					case 2: // Source Interface between the filters (or first, with one filter, after a UE IP address)
+						ch = append([]*ie.IE{ie.NewUEIPAddress(2, "10.60.0.1", "", 0, 0), sdfs[0], si}, sdfs[1:]...)
+					}
+					what := fmt.Sprintf("%s [source interface %d, child order %d, %d filter(s)]", r, srcIf, order, len(sdfs))
+					b, err := forwarder.VPdiAttrs(ie.NewPDI(ch...))
+					if err != nil {
+						c.fail("pdi-error", err.Error(), what)
+						continue
+					}
+					as, _ := nlw.Walk(b)
+					fs := nlw.Find(as, 3) // PDI_SDF_FILTER
+					if len(fs) != len(sdfs) {
+						c.fail("pdi-sdf-filter-count", fmt.Sprintf("%d SDF filter attributes for %d SDF Filter IEs", len(fs), len(sdfs)), what)
+						continue
+					}
+					for k, f := range fs {
+						fdA, ok := nlw.One(f.Children(), 1)
+						if !ok {
+							c.fail("sdf-filter-no-flow-description", "SDF filter attributes lack the flow description", what)
+							continue
+						}
+						dec, err := DecodeAttrs(fdA.Data)
+						want := *refs[k]
+						if srcIf == 0 {
+							want = Swapped(want)
+						}
+						if err != nil || !eq(*dec, want) {
+							c.fail(fmt.Sprintf("pdi-sdf-filter-swap:srcif=%d:order=%d", srcIf, order), fmt.Sprintf("filter %d packed as %v (err %v), want %s (source and destination exchanged iff the PDI's source interface is Access)", k+1, dec, err, want), what)
+						}
+					}
+				}
+			}
+		}
+	}
 	positives := c.evals
 
 	// negative space: near-miss mutations of valid rules
